@@ -234,6 +234,13 @@ func (e *Engine) specFor(fn *ssa.Function) *FuncSpec {
 
 // funcKey gives the contract key: Name, (T).Name or (*T).Name
 func funcKey(fn *ssa.Function) string {
+	if fn.Parent() != nil {
+		// anonymous function: Parent$N
+		pk := funcKey(fn.Parent())
+		if i := strings.LastIndex(fn.Name(), "$"); i >= 0 {
+			return pk + fn.Name()[i:]
+		}
+	}
 	if fn.Signature.Recv() != nil {
 		rt := fn.Signature.Recv().Type()
 		ptr := ""
@@ -583,6 +590,17 @@ func (e *Engine) callOpaque(st *State, fr *Frame, x *ssa.Call, fv ssa.Value, f V
 		}
 	}
 	if name == "" {
+		if root.spec != nil && root.spec.OpaquePure {
+			e.Assumptions["function values called in "+root.fn.String()+" that are not parameters (callbacks stored in fields) are assumed not to modify the state the contract talks about"] = true
+			var res []Val
+			if f.Sig != nil {
+				for i := 0; i < f.Sig.Results().Len(); i++ {
+					res = append(res, e.freshVal(st, f.Sig.Results().At(i).Type(), "opaque"))
+				}
+			}
+			st.calls = append(st.calls, callRec{target: "<opaque>", args: args, res: res, seq: len(st.calls)})
+			return tupleOf(res)
+		}
 		panic(unsupported("call of an opaque function value that is not a parameter of the function under contract"))
 	}
 	ps := root.spec.Params[name]
